@@ -208,6 +208,15 @@ class Ctx:
             raise Incomplete(f'anchor function {qual} ({file or "any file"}) expected once, found {len(c)}')
         return c[0]
 
+    def fnx(self, qual, file=None, trait=None, stop=(), depth=3):
+        """Like fn(), but with calls to local helpers no rule knows by name expanded (vlib/inline.py)."""
+        from . import inline
+        return inline.view(self, self.fn(qual, file=file, trait=trait), depth=depth, stop=tuple(stop))
+
+    def x(self, f, stop=(), depth=3):
+        from . import inline
+        return inline.view(self, f, depth=depth, stop=tuple(stop))
+
     def items(self, kind=None, name=None, file=None):
         return [i for i in self.astq['items'] if (kind is None or i['kind'] == kind) and (name is None or i.get('name') == name) and (file is None or i['file'].endswith(file))]
 
@@ -273,6 +282,29 @@ def site_str(site):
     return f"{site.get('file', '?')}:{site.get('line', '?')}"
 
 
+def engine_agreement(ctx, rep):
+    """Every non-closure, non-derived MIR body of the workspace crates whose span is not a macro expansion has an astq
+    function at the same file:line (the syntax evaluator covers what the build covers).  Fails closed."""
+    fa = {(f['file'], f['line']) for f in ctx.astq['functions']}
+    for fs in (list(ctx._mirq) or ['all']):
+        m = ctx.mirq(fs)
+        n = gen = 0
+        missing = []
+        bodies = [b for c in m['crates'].values() for b in c['bodies']]
+        for b in bodies:
+            if b['kind'] == 'closure' or b.get('derived') or not str(b.get('file', '')).endswith('.rs') or str(b['file']).startswith('/'):
+                continue
+            if b.get('exp'):
+                gen += 1
+                continue
+            n += 1
+            if (b['file'], b['line']) not in fa:
+                missing.append(f"{b['id']} ({b['file']}:{b['line']})")
+        rep.analysed[f'engine-agreement[{fs}]'] = f'{n} hand-written function bodies compiled by rustc all seen by astq; {gen} macro-generated bodies (serde derive, truncated_type!, lazy_format!) exist only in MIR'
+        if missing:
+            raise Incomplete(f'engine disagreement [{fs}]: rustc compiled function(s) the syntax evaluator did not see: {missing[:5]}')
+
+
 def finish(rep, seed=0):
     """Print verdict lines, write evidence, return exit code."""
     known = load_known()
@@ -289,7 +321,8 @@ def finish(rep, seed=0):
             kf.append(o)
         else:
             viol.append(o)
-    vdir = os.path.join(VERIF, 'evidence', 'violations', rep.prop)
+    evdir = os.environ.get('VERIF_EVIDENCE_DIR') or os.path.join(VERIF, 'evidence')
+    vdir = os.path.join(evdir, 'violations', rep.prop)
     if os.path.isdir(vdir):
         shutil.rmtree(vdir, ignore_errors=True)
     for o in kf:
@@ -336,8 +369,8 @@ def finish(rep, seed=0):
         'wall_s': round(time.time() - rep.t0, 3),
         'violations': len(viol),
     }
-    os.makedirs(os.path.join(VERIF, 'evidence'), exist_ok=True)
-    with open(os.path.join(VERIF, 'evidence', rep.prop + '.json'), 'w') as fh:
+    os.makedirs(evdir, exist_ok=True)
+    with open(os.path.join(evdir, rep.prop + '.json'), 'w') as fh:
         json.dump(ev, fh, indent=1)
     print(f"{rep.prop} [{rep.tier}]: {n_ob} rule instances, {n_ok} held, {len(kf)} known findings, {len(viol)} violations ({ev['wall_s']} s)")
     return 1 if viol else 0
